@@ -766,7 +766,7 @@ func genScenarios(tier string, r *rng.R) []scenario {
 	// several connections in different phases
 	n := 60
 	if tier == "thorough" {
-		n = 2500
+		n = 3500
 	}
 	for k := 0; k < n; k++ {
 		pp := r.Chance(1, 5)
